@@ -79,14 +79,16 @@ def run(tier, seed):
         if not nostck:
             terms = [sessions.session_case_term(r) for r in fres]
             cov = vlib.coq_eval_codes("C01frag", sesscheck.IMPORTS + ["StmtSem", "CorrFragment"], terms, "chk_fragment", shard=40)
-            inside = sum(c // 100000 for c in cov.values())
+            inside = sum((c // 100000) % 100000 for c in cov.values())
             total = sum(c % 100000 for c in cov.values())
             frag["trees"] = total
             frag["trees_inside_proven_fragment"] = inside
+            frag["trees_in_prefix_covered_by_sem_vs_vm_session_theorem"] = sum(c // 10**10 for c in cov.values())
     gterms = [sessions.session_case_term(r) for r in res]
     gcov = vlib.coq_eval_codes("C01gfrag", sesscheck.IMPORTS + ["StmtSem", "CorrFragment"], gterms, "chk_fragment", shard=40)
     frag["general_trees"] = sum(c % 100000 for c in gcov.values())
-    frag["general_trees_inside_proven_fragment"] = sum(c // 100000 for c in gcov.values())
+    frag["general_trees_inside_proven_fragment"] = sum((c // 100000) % 100000 for c in gcov.values())
+    frag["general_trees_in_prefix_covered_by_sem_vs_vm_session_theorem"] = sum(c // 10**10 for c in gcov.values())
     stats["proven_fragment"] = frag
     run.cov.update({
         "explanation": "The property itself (compiler+VM agree with the language semantics on every program) is NOT proved; "
@@ -99,10 +101,14 @@ def run(tier, seed):
                        "run_tree: C01_sessions_sem_vs_vm_partial; C01_sessions_with_definitions_partial for the compiled side alone); "
                        "%d further sessions of that fragment were run in value mode and file mode, and Coq evaluated the theorems' "
                        "premises on the parsed trees: %d of %d trees of those sessions and %d of %d trees of the general sessions "
-                       "lie inside the proven fragment." %
+                       "lie inside the proven fragment; %d and %d of them lie in a prefix of their session all of whose trees meet the "
+                       "premises of the Sem-vs-VM session theorem (C01_sessions_sem_vs_vm_partial), so that it applies from the start "
+                       "of the session." %
                        (len(THEOREMS), stats["sessions"], stats["statements"], frag["sessions"],
                         frag.get("trees_inside_proven_fragment", 0), frag.get("trees", 0),
-                        frag["general_trees_inside_proven_fragment"], frag["general_trees"]),
+                        frag["general_trees_inside_proven_fragment"], frag["general_trees"],
+                        frag.get("trees_in_prefix_covered_by_sem_vs_vm_session_theorem", 0),
+                        frag["general_trees_in_prefix_covered_by_sem_vs_vm_session_theorem"]),
         "evaluations": stats["statements"],
         "distinct_nontrivial": sesscheck.distinct_nontrivial(sess, res),
         "rule": "sessions of 3-10 top-level statements from a grammar-directed, scope-tracking, terminating generator "
